@@ -827,3 +827,59 @@ Proof.
   intros Hc Hb. unfold tera_render_component, tera_render_component_to. rewrite Hc, Hb.
   split; [intros; reflexivity|reflexivity].
 Qed.
+
+(* ------------------------------------------------------------------------------------------ *)
+(* 7. histories: renders leave no trace in the engine                                           *)
+(* ------------------------------------------------------------------------------------------ *)
+
+(* The formal counterpart of the purity-history oracle of harness/src/c18_history.rs. An engine
+   operation either changes the world (registration, configuration: any function world -> world)
+   or renders (any function of the world and a request: tera_render, tera_render_block, ...).
+   True by construction — `render` gets the world as an argument and returns only its result —
+   and stated so that the oracle's reference engine ("the same history without the renders") has
+   a definition. *)
+Section History.
+  Variable req : Type.
+  Variable render : world -> req -> res str.
+
+  Inductive hop := HReg (f : world -> world) | HRender (r : req).
+
+  Fixpoint run_history (wd : world) (h : list hop) : world * list (res str) :=
+    match h with
+    | [] => (wd, [])
+    | HReg f :: t => run_history (f wd) t
+    | HRender r :: t => let (w', outs) := run_history wd t in (w', render wd r :: outs)
+    end.
+
+  Definition is_reg (o : hop) : bool := match o with HReg _ => true | HRender _ => false end.
+  Definition strip_renders (h : list hop) : list hop := filter is_reg h.
+
+  Lemma history_world_ignores_renders : forall h wd,
+    fst (run_history wd h) = fst (run_history wd (strip_renders h)).
+  Proof.
+    induction h as [|o t IH]; intros wd; [reflexivity|]. destruct o as [f|r].
+    - cbn [strip_renders filter is_reg run_history]. apply IH.
+    - cbn [strip_renders filter is_reg run_history]. destruct (run_history wd t) as [w' outs] eqn:E.
+      cbn [fst]. specialize (IH wd). rewrite E in IH. exact IH.
+  Qed.
+
+  Lemma history_no_renders_no_outputs : forall h wd, snd (run_history wd (strip_renders h)) = [].
+  Proof.
+    induction h as [|o t IH]; intros wd; [reflexivity|]. destruct o as [f|r];
+      cbn [strip_renders filter is_reg run_history]; apply IH.
+  Qed.
+
+  (* a render in the middle of a history returns what it returns on the engine built by the
+     registrations before it alone *)
+  Lemma history_render_result : forall h1 r h2 wd,
+    nth_error (snd (run_history wd (h1 ++ HRender r :: h2))) (length (filter (fun o => negb (is_reg o)) h1))
+    = Some (render (fst (run_history wd (strip_renders h1))) r).
+  Proof.
+    induction h1 as [|o t IH]; intros r h2 wd.
+    - cbn [app run_history filter length strip_renders]. destruct (run_history wd h2). reflexivity.
+    - destruct o as [f|r0]; cbn [app run_history filter is_reg negb length strip_renders].
+      + apply IH.
+      + specialize (IH r h2 wd). destruct (run_history wd (t ++ HRender r :: h2)) as [w' outs].
+        cbn [snd nth_error length]. cbn [snd] in IH. rewrite IH. reflexivity.
+  Qed.
+End History.
